@@ -134,6 +134,36 @@ func (w *World) rewardHeightPanics(fn *ssa.Function) bool {
 	return found
 }
 
+// failStopHelper: fn is an unexported helper reached only from RigoApp.BeginBlock /
+// EndBlock (or their function literals), and each of its panics raises an error
+// value it received as a parameter — the block handlers' deliberate fail-stop,
+// written as a helper. Returns the handler it belongs to.
+func (w *World) failStopHelper(fn *ssa.Function) (string, bool) {
+	if fn.Parent() != nil || (fn.Object() != nil && fn.Object().Exported()) {
+		return "", false
+	}
+	for _, b := range fn.Blocks {
+		p, ok := lastInstr(b).(*ssa.Panic)
+		if !ok {
+			continue
+		}
+		v := stripConv(p.X)
+		if mi, isMI := v.(*ssa.MakeInterface); isMI {
+			v = stripConv(mi.X)
+		}
+		pr, isParam := v.(*ssa.Parameter)
+		if !isParam || !isErrorType(pr.Type()) {
+			return "", false
+		}
+	}
+	allowed := map[string]string{"node.(*RigoApp).BeginBlock": "", "node.(*RigoApp).EndBlock": ""}
+	via, ok := w.onlyReachedFrom(fn, allowed, 0, map[*ssa.Function]bool{})
+	if !ok || strings.Contains(via, ",") {
+		return "", false
+	}
+	return via, true
+}
+
 func p1(w *World, r *Report, reach *Reach, scope []*ssa.Function) {
 	for _, fn := range scope {
 		name := w.FName(fn)
@@ -158,6 +188,9 @@ func p1(w *World, r *Report, reach *Reach, scope []*ssa.Function) {
 					key = w.FName(outer) + ":panic"
 				}
 				r.OK("P-1", key, "explicit panic excepted: "+why, sites...)
+			} else if via, ok := w.failStopHelper(fn); ok {
+				// a helper that only the block handlers' fail-stop uses, panicking with the error it was handed
+				r.OK("P-1", via+":panic", "explicit panic excepted: "+c09PanicExceptions[via+":panic"], sites...)
 			} else if w.rewardHeightPanics(fn) {
 				// keyed by what is tested, not by where: the reward record's height against the block height
 				r.OK("P-1", key, "explicit panic excepted: "+c09PanicExceptions["stake.(*Reward).Withdraw:panic"], sites...)
